@@ -4,6 +4,7 @@ package c03
 import (
 	"fmt"
 	"strings"
+	"time"
 
 	cedar "github.com/cedar-policy/cedar-go"
 	publicast "github.com/cedar-policy/cedar-go/ast"
@@ -522,8 +523,9 @@ func shapeFamily(maxChain, maxFan, maxLayers int) *core.Family {
 
 func Check() *core.Check {
 	return &core.Check{
-		ID:    "C03",
-		Title: "Entity membership `in` is reflexive-transitive reachability",
+		ID:        "C03",
+		HangAfter: 120 * time.Second, // cases take at most seconds (max_case_s in the evidence); see core.Family.HangAfter
+		Title:     "Entity membership `in` is reflexive-transitive reachability",
 		Rule: "every directed parent graph over n named nodes with every subset of nodes present in the store, every (a,b) pair and every target set, on three copies of the hierarchy logic (evaluator, compiled scope in Authorize, partial-evaluation scope); oracle = Floyd-Warshall reachability over edges whose source is present; " +
 			"a case (store) is non-trivial if some pair a!=b is reachable; termination is decided by bounding EntityGetter.Get calls",
 		Assumptions: []string{"beyond 4 nodes only the parametric shape classes of family larger-shapes are covered (every member up to the stated size); the quantifier's random larger graphs would be sampling and are not done"},
